@@ -1,7 +1,7 @@
 PROP = dict(
     unclaimed=True,
     module="M3d.Props.C08",
-    corr=dict(quick=300, thorough=2500),
+    corr=dict(quick=1000, thorough=4000),
     thorough_seeds=6,
     gen=[],
     corr_theorems=(
